@@ -893,6 +893,99 @@ class RlRaggedRowSum(Family):
     bounded_cases = RlRaggedRavel.bounded_cases
 
 
+@register
+class RlRaggedMean(Family):
+    """RunLengthRaggedArray.mean against the contracts of its callees.  Row means: the callee's row sums (proved for integers: RunLengthRaggedArray.sum[axis=-1])
+    divided row by row by the length of the decoded row (its last boundary).  Column means: `sum(axis=0) / col_counts()`, the quotient of the two callee
+    results (a binary ufunc of two run-length arrays: RunLengthArray._apply_binary_func, C16).  Float division is an uninterpreted function."""
+    name = "RunLengthRaggedArray.mean"
+    qualname = "npstructures.runlengtharray:RunLengthRaggedArray.mean"
+    serves = ["C17"]
+    assumed = ["callee contracts RunLengthRaggedArray.sum(axis) and col_counts() (row sums of integers proved; column sums / counts: bounded stand-in)",
+               "numpy true division as an uninterpreted function of its two operands",
+               "RaggedArray operations through their contracts (SpecRagged: x[:, -1]; audited)"]
+
+    def kinds(self):
+        return ["rows", "rows[axis=1]", "columns", "columns[axis=-2]", "np.mean"]
+
+    def run(self, ctx, kind):
+        from npstructures.runlengtharray import RunLengthRaggedArray, RunLength2dArray
+        from ..sym.arr import apply_binary, ElemSort
+        st = sym_rl_ragged(ctx, kind="int")
+        n, VL, B = st["n"], st["VL"], st["B"]
+        obj = st["obj"]
+        sumfn = z3.Function("callee_row_sum", z3.IntSort(), z3.IntSort())
+        calls = {"sum": [], "col_counts": [], "div": []}
+
+        class Quotient:
+            """the column branch divides two run-length arrays: recorded, not executed (RunLengthArray.__array_ufunc__ / _apply_binary_func are proved in C16)"""
+            def __init__(self, tag):
+                self.tag = tag
+
+            def __truediv__(self, o):
+                calls["div"].append((self.tag, getattr(o, "tag", o)))
+                return "QUOTIENT"
+
+        def sum_stub(self_, axis=None, **kw):
+            calls["sum"].append((self_, axis, kw))
+            if axis in (0, -2):
+                return Quotient("colsum")
+            return SymArr.fresh((n,), lambda r: sumfn(r), "int", np.int64)
+
+        def cc_stub(self_):
+            calls["col_counts"].append(self_)
+            return Quotient("colcounts")
+        old_sum = RunLength2dArray.__dict__["sum"]
+        old_cc = RunLengthRaggedArray.__dict__["col_counts"]
+        RunLength2dArray.sum, RunLengthRaggedArray.col_counts = sum_stub, cc_stub
+        try:
+            if kind == "np.mean":
+                out = obj.__array_function__(np.mean, (RunLengthRaggedArray,), (obj,), {"axis": -1})
+            else:
+                axis = {"rows": -1, "rows[axis=1]": 1, "columns": 0, "columns[axis=-2]": -2}[kind]
+                out = obj.mean(axis=axis)
+        finally:
+            RunLength2dArray.sum, RunLengthRaggedArray.col_counts = old_sum, old_cc
+        if kind.startswith("columns"):
+            ctx.prove("post.column means: sum(axis=0) / col_counts() of the receiver", z3.BoolVal(
+                out == "QUOTIENT" and calls["div"] == [("colsum", "colcounts")] and len(calls["sum"]) == 1 and calls["sum"][0][0] is obj
+                and calls["sum"][0][1] in (0, -2) and calls["col_counts"] == [obj]))
+            return
+        ok = len(calls["sum"]) == 1 and calls["sum"][0][0] is obj and calls["sum"][0][1] in (-1, 1) and not calls["col_counts"] and isinstance(out, SymArr)
+        ctx.prove("post.row means: exactly one row sum of the receiver", z3.BoolVal(ok))
+        if not ok:
+            return
+        ctx.prove("post.one mean per row", z3.And(z3.BoolVal(out.ndim == 1), dim_term(out.shape_[0]) == n))
+        r = z3.Int("r")
+        ctx.skolem(z3.And(0 <= r, r < n))
+        ctx.prove("post.mean[r] == sum[r] / length of the decoded row r", out.get(r) == apply_binary("true_divide", sumfn(r), B(r, VL(r))), pool=[r, r + 1, VL(r)])
+        ctx.prove("post.operands not modified", z3.BoolVal(st["inds"].writes == 0 and st["vals"].writes == 0))
+
+    def concrete(self, case):
+        import math
+        from npstructures import RaggedArray
+        from npstructures.runlengtharray import RunLengthRaggedArray
+        rows = case["rows"]
+        rr = RunLengthRaggedArray.from_ragged_array(RaggedArray(rows))
+        width = max(len(r) for r in rows)
+        exp_rows = [sum(r) / len(r) for r in rows]
+        exp_cols = [sum(r[k] for r in rows if len(r) > k) / sum(1 for r in rows if len(r) > k) for k in range(width)]
+        for what, f, exp in (("mean(axis=-1)", lambda: rr.mean(axis=-1), exp_rows), ("mean(axis=1)", lambda: rr.mean(axis=1), exp_rows),
+                             ("np.mean(axis=-1)", lambda: np.mean(rr, axis=-1), exp_rows), ("mean(axis=0)", lambda: rr.mean(axis=0), exp_cols)):
+            try:
+                got = f()
+                got = np.asarray(got.to_array() if hasattr(got, "to_array") else got).tolist()
+            except Exception as e:
+                return {"msg": f"RunLengthRaggedArray.{what} for rows {rows} raised {type(e).__name__}: {e}", "sig": "raised:rlragged-mean"}
+            if len(got) != len(exp) or any(not math.isclose(g_, e_, rel_tol=1e-12, abs_tol=1e-12) for g_, e_ in zip(got, exp)):
+                return {"msg": f"RunLengthRaggedArray.{what} for rows {rows}: {got}, expected {exp}", "sig": "wrong:rlragged-mean"}
+
+    def concretise(self, kind, model, ghost):
+        return {"rows": [[1, 1, 2], [2], [3, 3, 4, 4]]}
+
+    bounded_cases = RlRaggedRavel.bounded_cases
+
+
 def _stub_ragged_remove_empty(calls):
     """RunLengthRaggedArray.remove_empty_intervals by its proved contract: fresh ragged results (SpecRagged) with the contract formulas as hypotheses,
     after the call-site obligation that boundaries have one column more than values"""
